@@ -79,8 +79,8 @@ int main(void) {
     }
   }
   END()
-  BEGIN("scalar.AtomicWeight_arr.below_1000")
-  for (Z = 0; Z <= ZMAX; Z++) if (!(AtomicWeight_arr[Z] < 1000.0)) BAD("Z=%d atomic weight %g", Z, AtomicWeight_arr[Z]);
+  BEGIN("scalar.AtomicWeight_arr.absent_or_in_1_1000")
+  for (Z = 0; Z <= ZMAX; Z++) if (!(AtomicWeight_arr[Z] < 1000.0) || (AtomicWeight_arr[Z] > 0.0 && AtomicWeight_arr[Z] < 1.0)) BAD("Z=%d atomic weight %g", Z, AtomicWeight_arr[Z]);
   END()
   BEGIN("cross.form_factor_implies_atomic_weight")
   for (Z = 1; Z <= ZMAX; Z++) {
